@@ -6,6 +6,11 @@
 //! rng cases (strat = 3): input = (3 (seed-hi seed-lo) script ()); the REAL
 //! `ChaCha8Rng::seed_from_u64(seed)` (rand_chacha / rand of /repo's lock file) is driven through the
 //! script of sampler calls; output = (results (block-hi block-lo offset)), see `rng_script`.
+//! file cases (strat 4 / 5 / 6 = sequential / interleaved / weighted): input = (k seed (file ...) orc), a file = its RAW
+//! BYTES, written as they are; the real `train_data_generator_from_jsonl` reads them; output as above with
+//! items = ((tag (1 input target)) | (tag (0 error-class)) ...). JSON cases (7): text -> serde_json's Value as a tree.
+//! print cases (8): (input [target]) -> serde_json::to_string of the object. line cases (9): bytes -> the strings
+//! `LossyUtf8Reader::lines()` yields and their count. See C07_Files.v.
 use rand::distr::weighted::WeightedIndex;
 use rand::distr::Distribution as _;
 use rand::seq::SliceRandom;
@@ -14,7 +19,7 @@ use rand_chacha::ChaCha8Rng;
 use std::io::Write as _;
 use std::path::PathBuf;
 use text_utils::data::loading::{
-    train_data_generator_from_jsonl, GenerationStrategy, MultiTrainDataGenerator, TrainDataGenerator,
+    train_data_generator_from_jsonl, GenerationStrategy, LossyUtf8Reader, MultiTrainDataGenerator, TrainDataGenerator,
 };
 use vh::*;
 
@@ -110,8 +115,33 @@ fn strategy(s: i64) -> GenerationStrategy {
     }
 }
 
+/// the class of an Err item, from the fixed head of its message (JSON_Model.item_err)
+fn err_class(msg: &str) -> i64 {
+    if msg.starts_with("failed to parse json line") {
+        0
+    } else if msg.starts_with("json line must be an object") {
+        1
+    } else if msg.starts_with("key 'input' not found") {
+        2
+    } else if msg.starts_with("key 'input' must be a string") {
+        3
+    } else if msg.starts_with("key 'target' must be a string") {
+        4
+    } else {
+        9
+    }
+}
+
+/// an item of a file case: (1 input target) | (0 error-class)
+fn decode_raw(item: &anyhow::Result<text_utils::data::TrainData>) -> Val {
+    match item {
+        Ok(td) => Val::L(vec![Val::I(1), Val::str(td.verif_input()), Val::str(td.verif_target())]),
+        Err(e) => Val::L(vec![Val::I(0), Val::I(err_class(&e.to_string()))]),
+    }
+}
+
 /// build the real generators over the files and drain the combined one
-fn drain(files: &[PathBuf], strat: i64, seed: u64, cap: usize) -> Val {
+fn drain(files: &[PathBuf], strat: i64, seed: u64, cap: usize, raw: bool) -> Val {
     let gens: Result<Vec<TrainDataGenerator>, _> = files
         .iter()
         .map(|f| {
@@ -128,8 +158,12 @@ fn drain(files: &[PathBuf], strat: i64, seed: u64, cap: usize) -> Val {
             let len = g.len();
             let mut items = vec![];
             for (data, tag) in g {
-                let (ok, id) = decode(&data);
-                items.push(Val::L(vec![Val::u(tag), Val::b(ok), Val::I(id)]));
+                if raw {
+                    items.push(Val::L(vec![Val::u(tag), decode_raw(&data)]));
+                } else {
+                    let (ok, id) = decode(&data);
+                    items.push(Val::L(vec![Val::u(tag), Val::b(ok), Val::I(id)]));
+                }
                 if items.len() > cap {
                     return Val::L(vec![Val::I(2), Val::L(items)]);
                 }
@@ -144,8 +178,8 @@ fn is_hang(v: &Val) -> bool {
 }
 
 /// `drain`, with the spin marker of `Counted` turned into a value
-fn drain_caught(files: &[PathBuf], strat: i64, seed: u64, cap: usize) -> Val {
-    match std::panic::catch_unwind(std::panic::AssertUnwindSafe(|| drain(files, strat, seed, cap))) {
+fn drain_caught(files: &[PathBuf], strat: i64, seed: u64, cap: usize, raw: bool) -> Val {
+    match std::panic::catch_unwind(std::panic::AssertUnwindSafe(|| drain(files, strat, seed, cap, raw))) {
         Ok(v) => v,
         Err(e) if e.downcast_ref::<Spin>().is_some() => Val::L(vec![Val::I(-778), Val::I(0)]),
         Err(_) => Val::panic(),
@@ -761,6 +795,611 @@ fn canon_rng_case(input: &Val) -> Option<Val> {
     Some(Val::L(vec![Val::I(3), seed, Val::L(script), Val::L(vec![])]))
 }
 
+// ---------------------------------------------------------------- files, lines, JSON (Lines_Model.v, JSON_Model.v, C07_Files.v)
+
+/// serde_json's Value as the model renders it (C07_Files.tree_v)
+fn tree(v: &serde_json::Value) -> Val {
+    use serde_json::Value as V;
+    let hl2 = |k: i64, x: u64| Val::L(vec![Val::I(2), Val::I(k), Val::I((x >> 32) as i64), Val::I((x & 0xffff_ffff) as i64)]);
+    match v {
+        V::Null => Val::L(vec![Val::I(0)]),
+        V::Bool(b) => Val::L(vec![Val::I(1), Val::b(*b)]),
+        V::Number(n) => {
+            if let Some(u) = n.as_u64() {
+                hl2(0, u)
+            } else if let Some(i) = n.as_i64() {
+                hl2(1, i.unsigned_abs())
+            } else {
+                Val::L(vec![Val::I(2), Val::I(2)])
+            }
+        }
+        V::String(s) => Val::L(vec![Val::I(3), Val::str(s)]),
+        V::Array(a) => Val::L(vec![Val::I(4), Val::L(a.iter().map(tree).collect())]),
+        V::Object(m) => Val::L(vec![
+            Val::I(5),
+            Val::L(m.iter().map(|(k, x)| Val::L(vec![Val::str(k), tree(x)])).collect()),
+        ]),
+    }
+}
+
+/// payload strings: escapes of every kind are needed, non-ASCII of every UTF-8 length, the key names
+const STR_UNITS: &[&str] = &[
+    "a", "b", "x", "0", " ", "é", "€", "😀", "\u{2028}", "\"", "\\", "/", "\n", "\r", "\t", "\u{8}", "\u{c}", "\u{0}",
+    "\u{1f}", "\u{7f}", "\u{80}", "\u{7ff}", "\u{800}", "\u{d7ff}", "\u{e000}", "\u{fffd}", "\u{ffff}", "\u{10000}",
+    "\u{10ffff}", "input", "target", "{", "}", ",", ":",
+];
+
+fn gen_payload(rng: &mut Rng) -> String {
+    let n = match rng.below(10) {
+        0 => 0,
+        1..=6 => rng.range(1, 4),
+        _ => rng.range(5, 9),
+    };
+    (0..n).map(|_| *rng.pick(STR_UNITS)).collect()
+}
+
+/// json.dumps(s) of Python with ensure_ascii (JSON_Model.json_string_ascii)
+fn py_string(s: &str) -> String {
+    let mut o = String::from("\"");
+    for c in s.chars() {
+        match c {
+            '"' => o.push_str("\\\""),
+            '\\' => o.push_str("\\\\"),
+            '\n' => o.push_str("\\n"),
+            '\r' => o.push_str("\\r"),
+            '\t' => o.push_str("\\t"),
+            '\u{8}' => o.push_str("\\b"),
+            '\u{c}' => o.push_str("\\f"),
+            ' '..='~' => o.push(c),
+            _ => {
+                let mut b = [0u16; 2];
+                for u in c.encode_utf16(&mut b) {
+                    o.push_str(&format!("\\u{:04x}", u));
+                }
+            }
+        }
+    }
+    o.push('"');
+    o
+}
+
+/// a JSON string literal for `s` in which every character is written in a randomly chosen legal way
+fn exotic_string(rng: &mut Rng, s: &str) -> String {
+    let mut o = String::from("\"");
+    for c in s.chars() {
+        let must = c == '"' || c == '\\' || (c as u32) < 0x20;
+        let style = if must { rng.range(1, 2) } else { rng.below(4) };
+        let simple = match c {
+            '"' => Some("\\\""),
+            '\\' => Some("\\\\"),
+            '/' => Some("\\/"),
+            '\n' => Some("\\n"),
+            '\r' => Some("\\r"),
+            '\t' => Some("\\t"),
+            '\u{8}' => Some("\\b"),
+            '\u{c}' => Some("\\f"),
+            _ => None,
+        };
+        match (style, simple) {
+            (1, Some(e)) => o.push_str(e),
+            (1, None) | (2, _) => {
+                let mut b = [0u16; 2];
+                for u in c.encode_utf16(&mut b) {
+                    if rng.chance(1, 2) {
+                        o.push_str(&format!("\\u{:04x}", u));
+                    } else {
+                        o.push_str(&format!("\\u{:04X}", u));
+                    }
+                }
+            }
+            _ => o.push(c),
+        }
+    }
+    o.push('"');
+    o
+}
+
+fn json_ws(rng: &mut Rng) -> &'static str {
+    match rng.below(12) {
+        0 => " ",
+        1 => "  ",
+        2 => "\t",
+        3 => "\r",
+        4 => " \t ",
+        _ => "",
+    }
+}
+
+fn render_string(rng: &mut Rng, style: usize, s: &str) -> String {
+    match style {
+        0 => serde_json::to_string(s).unwrap(),
+        1 => py_string(s),
+        _ => exotic_string(rng, s),
+    }
+}
+
+fn render_any(rng: &mut Rng, s: &str) -> String {
+    let style = rng.below(3);
+    render_string(rng, style, s)
+}
+
+/// a well-formed item line in one of three writer styles
+fn item_line(rng: &mut Rng, input: &str, target: Option<&str>) -> String {
+    let style = rng.below(3);
+    let (colon, comma) = match style {
+        0 => (":".to_string(), ",".to_string()),
+        1 => (": ".to_string(), ", ".to_string()),
+        _ => (format!("{}:{}", json_ws(rng), json_ws(rng)), format!("{},{}", json_ws(rng), json_ws(rng))),
+    };
+    let mut members = vec![format!("\"input\"{}{}", colon, render_string(rng, style, input))];
+    if let Some(t) = target {
+        members.push(format!("\"target\"{}{}", colon, render_string(rng, style, t)));
+    }
+    if style == 2 && rng.chance(1, 3) {
+        members.push(format!("\"id\"{}{}", colon, rng.below(100)));
+    }
+    if style == 2 && rng.chance(1, 2) {
+        rng.shuffle(&mut members);
+    }
+    let (open, close) = if style == 2 { (format!("{}{{{}", json_ws(rng), json_ws(rng)), format!("{}}}{}", json_ws(rng), json_ws(rng))) } else { ("{".into(), "}".into()) };
+    format!("{}{}{}", open, members.join(&comma), close)
+}
+
+/// the decimal digits of 2^1024 - 2^970 (the smallest real that rounds to infinity), for boundary mantissas
+const INF_EDGE: &str = "1797693134862315807937289714053034150799341327100378269361737789804449682927647509466490179775872070963302864166928879109465555478519404026306574886715058206819";
+
+fn number_zoo(rng: &mut Rng) -> String {
+    const FIXED: &[&str] = &[
+        "0", "-0", "1", "-1", "01", "00", "-", "-a", "+1", "1.", "1.0", ".5", "1e", "1e+", "1e-", "1e5", "1E5", "1e+5", "1e-5",
+        "1.5e3", "0.0", "0e0", "0e999", "0e99999999999", "-0e-99999999999", "0.0e99999999999", "1e308", "1e309", "10e307",
+        "10e308", "0.1e309", "0.1e310", "1e-400", "1e-99999999999", "1e99999999999", "1e2147483647", "1e2147483648",
+        "0e2147483648", "1e-2147483648", "1e-2147483649", "18446744073709551615", "18446744073709551616",
+        "-9223372036854775808", "-9223372036854775809", "9223372036854775807", "9223372036854775808",
+        "-18446744073709551615", "-18446744073709551616", "1.7976931348623157e308", "1.7976931348623158e308",
+        "1.7976931348623159e308", "17976931348623157e292", "17976931348623158e292", "17976931348623159e292",
+        "1844674407370955161.5", "1844674407370955161.6", "18446744073709551615.5", "184467440737095516150",
+        "0.18446744073709551615123", "0.18446744073709551616", "123456789012345678901234567890e280",
+        "123456789012345678901234567890e279", "4.9e-324", "2.2250738585072014e-308", "1e23", "8.5e307", "1e1e1", "1.2.3",
+        "1ee5", "1e5.5", "0x10", "1_000", "1e+-5", "--1", "-01", "-0.0e-0", "9007199254740993", "0.000000000000000000000001e332",
+        "100000000000000000000000000000000000000000000000000000000000000000000000000000000000000000000000000000000000000000000000000000000000000000000000000000000000000000000000000000000000000000000000000000000000000000000000000000000000000000000000000000000000000000000000000000000000000000000000000000000000000000000",
+        "1000000000000000000000000000000000000000000000000000000000000000000000000000000000000000000000000000000000000000000000000000000000000000000000000000000000000000000000000000000000000000000000000000000000000000000000000000000000000000000000000000000000000000000000000000000000000000000000000000000000000000000000",
+    ];
+    match rng.below(10) {
+        0..=3 => (*rng.pick(FIXED)).to_string(),
+        4..=6 => {
+            // a k-digit mantissa at the edge of the binary64 range: the leading digits of 2^1024 - 2^970, last digit moved
+            let k = rng.range(1, 40);
+            let mut m: Vec<u8> = INF_EDGE.as_bytes()[..k].to_vec();
+            let d = rng.below(5) as i64 - 2;
+            let last = (m[k - 1] - b'0') as i64 + d;
+            if (0..=9).contains(&last) {
+                m[k - 1] = b'0' + last as u8;
+            }
+            let exp = 309 - k as i64 + rng.below(3) as i64 - 1;
+            let m = String::from_utf8(m).unwrap();
+            match rng.below(3) {
+                0 => format!("{m}e{exp}"),
+                1 if k > 1 => format!("{}.{}e{}", &m[..1], &m[1..], exp + k as i64 - 1),
+                _ => format!("{m}E+{exp}"),
+            }
+        }
+        _ => {
+            // random lexeme: digits around the u64 limit, fraction, exponent
+            let digits = |rng: &mut Rng, n: usize| -> String { (0..n).map(|_| (b'0' + rng.below(10) as u8) as char).collect() };
+            let nd = *rng.pick(&[1, 2, 5, 18, 19, 20, 21, 25]);
+            let mut s = digits(rng, nd);
+            if s.len() > 1 && s.starts_with('0') && !rng.chance(1, 8) {
+                s.replace_range(0..1, "1");
+            }
+            if rng.chance(1, 3) {
+                s.insert(0, '-');
+            }
+            if rng.chance(1, 2) {
+                s.push('.');
+                let nf = *rng.pick(&[0, 1, 3, 19, 22]);
+                s.push_str(&digits(rng, nf));
+            }
+            if rng.chance(1, 2) {
+                s.push(if rng.chance(1, 2) { 'e' } else { 'E' });
+                s.push_str(*rng.pick(&["", "+", "-"]));
+                let e = match rng.below(4) {
+                    0 => rng.below(30) as i64,
+                    1 => 280 + rng.below(40) as i64,
+                    2 => 300 - nd as i64 + rng.below(12) as i64,
+                    _ => rng.below(5000) as i64,
+                };
+                s.push_str(&e.to_string());
+            }
+            s
+        }
+    }
+}
+
+/// a random JSON value as text (not necessarily an item), depth <= 3
+fn json_value_text(rng: &mut Rng, depth: usize) -> String {
+    let w = |rng: &mut Rng| json_ws(rng).to_string();
+    let k = if depth == 0 { rng.below(5) } else { rng.below(8) };
+    match k {
+        0 => (*rng.pick(&["null", "true", "false", "nul", "truee", "False", "NaN", "None", "Infinity"])).to_string(),
+        1 | 2 => {
+            let p = gen_payload(rng);
+            render_any(rng, &p)
+        }
+        3 => number_zoo(rng),
+        4 => (*rng.pick(&["[]", "{}", "[ ]", "{ }", "[,]", "{,}", "[1,]", "{\"a\":1,}", "[1 2]", "{\"a\" 1}", "{a:1}", "{1:1}", "{\"a\":}", "[", "{", "]", "}"])).to_string(),
+        5 | 6 => {
+            let n = rng.below(4);
+            let elems: Vec<String> = (0..n).map(|_| format!("{}{}{}", w(rng), json_value_text(rng, depth - 1), w(rng))).collect();
+            format!("[{}]", elems.join(","))
+        }
+        _ => {
+            let n = rng.below(4);
+            let keys = ["a", "b", "input", "target", "a", "", "é", "a\u{0}"];
+            let elems: Vec<String> = (0..n)
+                .map(|_| {
+                    let key = *rng.pick(&keys);
+                    format!("{}{}{}:{}{}", w(rng), render_any(rng, key), w(rng), w(rng), json_value_text(rng, depth - 1))
+                })
+                .collect();
+            format!("{{{}}}", elems.join(","))
+        }
+    }
+}
+
+fn nest(rng: &mut Rng) -> String {
+    let n = *rng.pick(&[1, 2, 125, 126, 127, 128, 129, 130, 200]);
+    match rng.below(3) {
+        0 => format!("{}{}", "[".repeat(n), "]".repeat(n)),
+        1 => format!("{}1{}", "{\"a\":".repeat(n), "}".repeat(n)),
+        _ => {
+            let mut open = String::new();
+            let mut close = String::new();
+            for i in 0..n {
+                if (i + n) % 2 == 0 {
+                    open.push('[');
+                    close.insert(0, ']');
+                } else {
+                    open.push_str("{\"k\":");
+                    close.insert(0, '}');
+                }
+            }
+            format!("{open}\"x\"{close}")
+        }
+    }
+}
+
+fn mutate_bytes(rng: &mut Rng, b: &mut Vec<u8>) {
+    const POOL: &[u8] = b"\"\\{}[]:,01e.-+ \tnutrfalse\x00\x1f\x7f\x80\xbf\xc3\xa9\xe2\x82\xf0\x9f\xed\xa0\xff\xef\xbb";
+    for _ in 0..rng.range(1, 3) {
+        let pos = if b.is_empty() { 0 } else { rng.below(b.len() + 1) };
+        match rng.below(3) {
+            0 => b.insert(pos, *rng.pick(POOL)),
+            1 if pos < b.len() => {
+                b.remove(pos);
+            }
+            _ if pos < b.len() => b[pos] = *rng.pick(POOL),
+            _ => b.push(*rng.pick(POOL)),
+        }
+    }
+}
+
+/// one line of a jsonl file, without terminator; never contains '\n' (mutations may insert '\r')
+fn gen_line(rng: &mut Rng) -> Vec<u8> {
+    let mut b: Vec<u8> = match rng.below(100) {
+        0..=49 => {
+            let i = gen_payload(rng);
+            let t = if rng.chance(1, 2) { Some(gen_payload(rng)) } else { None };
+            item_line(rng, &i, t.as_deref()).into_bytes()
+        }
+        50..=61 => {
+            // keys missing, of the wrong type, duplicated
+            let v = |rng: &mut Rng| -> String {
+                match rng.below(8) {
+                    0..=3 => {
+                        let p = gen_payload(rng);
+                        render_any(rng, &p)
+                    }
+                    4 => number_zoo(rng),
+                    5 => (*rng.pick(&["null", "true", "false"])).to_string(),
+                    6 => "[\"a\"]".to_string(),
+                    _ => "{\"input\":\"inner\"}".to_string(),
+                }
+            };
+            let n = rng.range(0, 4);
+            let members: Vec<String> = (0..n)
+                .map(|_| {
+                    let key = *rng.pick(&["\"input\"", "\"input\"", "\"target\"", "\"target\"", "\"Input\"", "\"inpu\\u0074\"", "\"\\u0069nput\"", "\"input \"", "\"id\""]);
+                    format!("{}:{}", key, v(rng))
+                })
+                .collect();
+            format!("{{{}}}", members.join(",")).into_bytes()
+        }
+        62..=71 => json_value_text(rng, 3).into_bytes(),
+        72..=81 => {
+            let i = gen_payload(rng);
+            let mut b = item_line(rng, &i, None).into_bytes();
+            mutate_bytes(rng, &mut b);
+            b
+        }
+        82..=86 => {
+            let n = number_zoo(rng);
+            match rng.below(3) {
+                0 => format!("{{\"input\":\"x\",\"n\":{n}}}").into_bytes(),
+                1 => format!("{{\"input\":{n}}}").into_bytes(),
+                _ => n.into_bytes(),
+            }
+        }
+        87..=90 => {
+            let t = nest(rng);
+            if rng.chance(1, 2) { format!("{{\"input\":\"x\",\"z\":{t}}}").into_bytes() } else { t.into_bytes() }
+        }
+        91..=94 => (*rng.pick(&[
+            &b""[..], b" ", b"\t", b"\r", b"\xef\xbb\xbf{\"input\":\"a\"}", b"\xef\xbb\xbf", b"{\"input\":\"a\"} x", b"{\"input\":\"a\"}{\"input\":\"b\"}",
+            b"{\"input\":\"a\"},", b"// c", b"{\"input\":\"a\"} \t\r", b"\x00", b"{\"input\":\"a\x00\"}", b"{\"input\":\"a\tb\"}", b"{\"input\":\"\\ud800\"}",
+            b"{\"input\":\"\\udc00\"}", b"{\"input\":\"\\ud800\\u0041\"}", b"{\"input\":\"\\ud800\\ud800\"}", b"{\"input\":\"\\ud83d\\ude00\"}",
+            b"{\"input\":\"\\uD83D\\uDE00\"}", b"{\"input\":\"\\ud83d\"}", b"{\"input\":\"\\ud83dx\"}", b"{\"input\":\"\\ud83d\\n\"}", b"{\"input\":\"\\u00g0\"}",
+            b"{\"input\":\"\\u00\"}", b"{\"input\":\"\\u\"}", b"{\"input\":\"\\", b"{\"input\":\"\\x41\"}", b"{\"input\":\"\\a\"}", b"{\"input\":\"\\u0000\"}",
+            b"{\"input\":\"\\/\"}", b"{\"input\":\"a", b"{\"input\":", b"{\"input\"", b"{\"input\":\"\xc3\xa9\"}", b"{\"input\":\"\\u00\xc3\xa9\"}",
+        ]))
+        .to_vec(),
+        _ => {
+            // invalid UTF-8 inside and outside the strings
+            let bad: &[u8] = *rng.pick(&[&b"\xff"[..], b"\xc3", b"\xe2\x82", b"\xf0\x9f\x98", b"\xed\xa0\x80", b"\xc0\xaf", b"\xf4\x90\x80\x80", b"\x80", b"\xe0\x80\x80"]);
+            let mut b = b"{\"input\":\"a".to_vec();
+            match rng.below(3) {
+                0 => {
+                    b.extend_from_slice(bad);
+                    b.extend_from_slice(b"b\"}");
+                }
+                1 => {
+                    b.extend_from_slice(b"\"}");
+                    b.extend_from_slice(bad);
+                }
+                _ => {
+                    b.extend_from_slice(bad);
+                    b.extend_from_slice(b"\",\"target\":\"");
+                    b.extend_from_slice(bad);
+                    b.extend_from_slice(b"\"}");
+                }
+            }
+            b
+        }
+    };
+    b.retain(|c| *c != b'\n');
+    b
+}
+
+fn gen_file(rng: &mut Rng, max_lines: usize, min_lines: usize) -> Vec<u8> {
+    let n = rng.range(min_lines, max_lines.max(min_lines));
+    let mut f = vec![];
+    let crlf_file = rng.chance(1, 6);
+    for k in 0..n {
+        f.extend_from_slice(&gen_line(rng));
+        let last = k + 1 == n;
+        if last && rng.chance(1, 5) {
+            break; // no final newline
+        }
+        if crlf_file || rng.chance(1, 10) {
+            f.push(b'\r');
+        }
+        f.push(b'\n');
+    }
+    f
+}
+
+fn gen_file_case(rng: &mut Rng) -> Val {
+    let strat = rng.below(3) as i64;
+    let seed = match rng.below(6) {
+        0 => 0,
+        1 => rng.below(4) as u64,
+        _ => rng.next_u64() >> 3,
+    };
+    let nfiles = match rng.below(10) {
+        0..=3 => 1,
+        4..=7 => 2,
+        _ => rng.range(3, 4),
+    };
+    let min_lines = if strat == 2 && !rng.chance(1, 10) { 1 } else { 0 };
+    let files: Vec<Vec<u8>> = (0..nfiles)
+        .map(|_| {
+            let f = gen_file(rng, if nfiles == 1 { 6 } else { 4 }, min_lines);
+            // a weighted case with an accidentally empty file would only test the constructor error
+            if min_lines == 1 && f.is_empty() { b"\n".to_vec() } else { f }
+        })
+        .collect();
+    file_case(strat, seed, &files, rng)
+}
+
+fn file_case(strat: i64, seed: u64, files: &[Vec<u8>], rng: &mut Rng) -> Val {
+    let lines: usize = files.iter().map(|f| f.iter().filter(|c| **c == b'\n').count() + 1).sum();
+    let orc: Vec<Val> = (0..lines + files.len() + 2).map(|_| Val::u(rng.below(6))).collect();
+    Val::L(vec![Val::I(4 + strat), Val::I(seed as i64), Val::L(files.iter().map(|f| Val::bytes(f)).collect()), Val::L(orc)])
+}
+
+fn gen_json_case(rng: &mut Rng) -> Val {
+    let mut text = match rng.below(10) {
+        0..=4 => json_value_text(rng, 3),
+        5 => number_zoo(rng),
+        6 => nest(rng),
+        7 => {
+            let i = gen_payload(rng);
+            let t = gen_payload(rng);
+            item_line(rng, &i, Some(&t))
+        }
+        _ => {
+            let p = gen_payload(rng);
+            format!("{}{}{}", json_ws(rng), render_any(rng, &p), json_ws(rng))
+        }
+    };
+    if rng.chance(1, 6) {
+        // character-level damage (the text stays a string: no invalid UTF-8 here)
+        let mut cs: Vec<char> = text.chars().collect();
+        const POOL: &[char] = &['"', '\\', '{', '}', '[', ']', ':', ',', '0', '1', 'e', '.', '-', '+', ' ', '\n', 'n', 'u', '\u{0}', '\u{1f}', 'é', '😀', '\u{feff}'];
+        let pos = if cs.is_empty() { 0 } else { rng.below(cs.len() + 1) };
+        match rng.below(3) {
+            0 => cs.insert(pos, *rng.pick(POOL)),
+            1 if pos < cs.len() => {
+                cs.remove(pos);
+            }
+            _ if pos < cs.len() => cs[pos] = *rng.pick(POOL),
+            _ => cs.push(*rng.pick(POOL)),
+        }
+        text = cs.into_iter().collect();
+    }
+    Val::L(vec![Val::I(7), Val::I(0), Val::str(&text), Val::L(vec![])])
+}
+
+fn gen_print_case(rng: &mut Rng) -> Val {
+    let i = gen_payload(rng);
+    let mut a = vec![Val::str(&i)];
+    if rng.chance(1, 2) {
+        a.push(Val::str(&gen_payload(rng)));
+    }
+    Val::L(vec![Val::I(8), Val::I(0), Val::L(a), Val::L(vec![])])
+}
+
+/// bytes that make the lossy decoder work: leads of every length, continuation bytes, the special second bytes
+const LINE_BYTES: &[u8] = &[
+    b'a', b'a', b'\n', b'\n', b'\r', b'\r', 0, 0x7f, 0x80, 0x9f, 0xa0, 0xbf, 0xc0, 0xc1, 0xc2, 0xc3, 0xa9, 0xdf, 0xe0, 0xe1, 0xe2, 0x82, 0xac,
+    0xec, 0xed, 0xee, 0xef, 0xf0, 0x8f, 0x90, 0x9f, 0x98, 0xf1, 0xf3, 0xf4, 0xf5, 0xff,
+];
+
+fn gen_lines_case(rng: &mut Rng) -> Val {
+    let n = match rng.below(10) {
+        0 => 0,
+        1..=6 => rng.range(1, 12),
+        _ => rng.range(13, 40),
+    };
+    let b: Vec<u8> = match rng.below(4) {
+        // a valid text with the occasional broken byte
+        0 => {
+            let mut s: Vec<u8> = (0..n).flat_map(|_| rng.pick(&["a", "é", "€", "😀", "\n", "\r\n", "\r", "\u{fffd}"]).as_bytes().to_vec()).collect();
+            if rng.chance(2, 3) {
+                mutate_bytes(rng, &mut s);
+            }
+            s
+        }
+        _ => (0..n).map(|_| *rng.pick(LINE_BYTES)).collect(),
+    };
+    let cap = *rng.pick(&[1usize, 2, 3, 5, 8, 8192]);
+    lines_case(cap, &b)
+}
+
+fn lines_case(cap: usize, b: &[u8]) -> Val {
+    Val::L(vec![Val::I(9), Val::u(cap), Val::bytes(b), Val::L(vec![])])
+}
+
+fn val_bytes(v: &Val) -> Option<Vec<u8>> {
+    v.as_l()?.iter().map(|x| x.as_i().and_then(|i| u8::try_from(i).ok())).collect()
+}
+
+fn run_json_case(input: &Val) -> Option<(Val, Vec<String>)> {
+    let text = input.nth(2)?.to_string_lossy()?;
+    if text.len() > 20_000 {
+        return None;
+    }
+    let mut tags = vec!["json".to_string()];
+    let out = match serde_json::from_str::<serde_json::Value>(&text) {
+        Ok(v) => {
+            tags.push("json-ok".into());
+            if matches!(v, serde_json::Value::Array(_) | serde_json::Value::Object(_)) || text.contains('\\') {
+                tags.push("nt".into());
+            }
+            Val::L(vec![Val::I(1), tree(&v)])
+        }
+        Err(e) => {
+            tags.push("json-err".into());
+            if e.to_string().starts_with("number out of range") {
+                tags.push("out-of-range".into());
+            }
+            if e.to_string().starts_with("recursion limit") {
+                tags.push("depth-limit".into());
+            }
+            if text.len() >= 3 {
+                tags.push("nt".into());
+            }
+            Val::L(vec![Val::I(0)])
+        }
+    };
+    Some((out, tags))
+}
+
+fn run_print_case(input: &Val) -> Option<(Val, Vec<String>)> {
+    let a = input.nth(2)?.as_l()?;
+    if a.is_empty() || a.len() > 2 {
+        return None;
+    }
+    let i = a[0].to_string_lossy()?;
+    let mut m = serde_json::Map::new();
+    if a.len() == 2 {
+        // inserted first on purpose: the map orders the keys itself
+        m.insert("target".to_string(), serde_json::Value::String(a[1].to_string_lossy()?));
+    }
+    m.insert("input".to_string(), serde_json::Value::String(i.clone()));
+    let line = serde_json::to_string(&serde_json::Value::Object(m)).ok()?;
+    let mut tags = vec!["print".to_string()];
+    if i.chars().any(|c| (c as u32) < 0x20 || c == '"' || c == '\\' || (c as u32) > 0x7e) {
+        tags.push("nt".into());
+    }
+    Some((Val::str(&line), tags))
+}
+
+fn run_lines_case(input: &Val) -> Option<(Val, Vec<String>)> {
+    let cap = input.nth(1)?.as_usize()?;
+    let b = val_bytes(input.nth(2)?)?;
+    if !(1..=65536).contains(&cap) || b.len() > 4000 {
+        return None;
+    }
+    let reader = |b: &[u8]| LossyUtf8Reader::new(std::io::BufReader::with_capacity(cap, std::io::Cursor::new(b.to_vec())));
+    let mut lines = vec![];
+    for l in reader(&b).lines() {
+        match l {
+            Ok(s) => lines.push(Val::str(&s)),
+            Err(_) => return Some((Val::L(vec![Val::I(-5)]), vec!["lines".into()])),
+        }
+    }
+    let count = reader(&b).lines().count();
+    let mut tags = vec!["lines".to_string()];
+    if std::str::from_utf8(&b).is_err() {
+        tags.push("invalid-utf8".into());
+    }
+    if !b.is_empty() && *b.last().unwrap() != b'\n' {
+        tags.push("no-final-nl".into());
+    }
+    if b.len() >= 3 && (b.contains(&b'\n') || std::str::from_utf8(&b).is_err()) {
+        tags.push("nt".into());
+    }
+    Some((Val::L(vec![Val::L(lines), Val::u(count)]), tags))
+}
+
+/// repair a shrunk / hand-written input of kinds 4..9: bytes into 0..=255, code points into scalar values
+fn canon_file_level(k: i64, l: &[Val]) -> Option<Val> {
+    let byte = |v: &Val| Val::I(v.as_i().unwrap_or(97).rem_euclid(256));
+    let cp = |v: &Val| {
+        let c = v.as_i().unwrap_or(97).rem_euclid(0x110000);
+        Val::I(if (0xd800..0xe000).contains(&c) { 0xfffd } else { c })
+    };
+    let list = |v: &Val, f: &dyn Fn(&Val) -> Val| Val::L(v.as_l().unwrap_or(&[]).iter().map(f).collect());
+    Some(match k {
+        4..=6 => {
+            let seed = l[1].as_i()?.unsigned_abs() & ((1 << 62) - 1);
+            let files: Vec<Val> = l[2].as_l()?.iter().take(6).map(|f| list(f, &byte)).collect();
+            let orc: Vec<Val> = l[3].as_l()?.iter().map(|v| Val::I(v.as_i().unwrap_or(0).rem_euclid(64))).collect();
+            Val::L(vec![Val::I(k), Val::I(seed as i64), Val::L(files), Val::L(orc)])
+        }
+        7 => Val::L(vec![Val::I(7), Val::I(0), list(&l[2], &cp), Val::L(vec![])]),
+        8 => {
+            let a: Vec<Val> = l[2].as_l()?.iter().take(2).map(|s| list(s, &cp)).collect();
+            let a = if a.is_empty() { vec![Val::L(vec![])] } else { a };
+            Val::L(vec![Val::I(8), Val::I(0), Val::L(a), Val::L(vec![])])
+        }
+        _ => {
+            let cap = l[1].as_i().unwrap_or(1).rem_euclid(64).max(1);
+            Val::L(vec![Val::I(9), Val::I(cap), list(&l[2], &byte), Val::L(vec![])])
+        }
+    })
+}
+
 type Srcs = Vec<Vec<(i64, i64)>>;
 
 fn parse_input(input: &Val) -> Option<(i64, u64, Srcs)> {
@@ -809,10 +1448,10 @@ impl C07 {
     /// one watched drain -> (output, a helper thread is stuck). A timeout is confirmed once
     /// with a longer limit so that a loaded machine cannot produce a false hang; endless
     /// pulling of an exhausted source is reported as a hang at once (no thread stays behind).
-    fn watched(&self, files: &[PathBuf], strat: i64, seed: u64, cap: usize) -> (Val, bool) {
+    fn watched(&self, files: &[PathBuf], strat: i64, seed: u64, cap: usize, raw: bool) -> (Val, bool) {
         let spin = Val::L(vec![Val::I(-778), Val::I(0)]);
         let f1 = files.to_vec();
-        let v = with_timeout(TIMEOUT_MS, move || drain_caught(&f1, strat, seed, cap));
+        let v = with_timeout(TIMEOUT_MS, move || drain_caught(&f1, strat, seed, cap, raw));
         if v == spin {
             return (Val::hang(), false);
         }
@@ -821,7 +1460,7 @@ impl C07 {
         }
         let f2 = files.to_vec();
         let confirm = if self.child { CHILD_CONFIRM_MS } else { CONFIRM_MS };
-        let v = with_timeout(confirm, move || drain_caught(&f2, strat, seed, cap));
+        let v = with_timeout(confirm, move || drain_caught(&f2, strat, seed, cap, raw));
         if v == spin {
             return (Val::hang(), true);
         }
@@ -858,6 +1497,90 @@ impl C07 {
             .map(|t| t.split(',').filter(|s| !s.is_empty()).map(|s| s.to_string()).collect())
             .unwrap_or_default();
         Some((Val::parse(o)?, tags))
+    }
+
+    fn write_raw(&self, files: &[Vec<u8>]) -> Option<Vec<PathBuf>> {
+        let mut paths = vec![];
+        for (j, b) in files.iter().enumerate() {
+            let p = self.dir.join(format!("r{j}.jsonl"));
+            std::fs::write(&p, b).ok()?;
+            paths.push(p);
+        }
+        Some(paths)
+    }
+
+    /// files of raw bytes through the real generators: (1 items rep len) | (0) | hang / panic
+    fn run_file_case(&mut self, input: &Val) -> Option<(Val, Vec<String>)> {
+        let l = input.as_l()?;
+        if l.len() != 4 {
+            return None;
+        }
+        let strat = l[0].as_i()? - 4;
+        let seed = u64::try_from(l[1].as_i()?).ok()?;
+        let files: Vec<Vec<u8>> = l[2].as_l()?.iter().map(val_bytes).collect::<Option<_>>()?;
+        l[3].as_l()?;
+        if !(0..3).contains(&strat) || files.is_empty() || files.len() > 6 || seed >= 1 << 62 {
+            return None;
+        }
+        if files.iter().any(|f| f.len() > 4000) {
+            return None;
+        }
+        if self.hung {
+            if self.run_mode {
+                return self.run_via_child(input);
+            }
+            return None;
+        }
+        let paths = self.write_raw(&files)?;
+        let nl: usize = files.iter().map(|f| f.iter().filter(|c| **c == b'\n').count() + 1).sum();
+        let cap = nl + files.len() + 4;
+        let mut tags = vec![
+            "file".to_string(),
+            match strat {
+                1 => "interleaved",
+                2 => "weighted",
+                _ => "sequential",
+            }
+            .to_string(),
+        ];
+        let all: Vec<u8> = files.concat();
+        let open_end = files.iter().any(|f| !f.is_empty() && *f.last().unwrap() != b'\n');
+        if open_end {
+            tags.push("no-final-nl".into());
+        }
+        if files.iter().any(|f| std::str::from_utf8(f).is_err()) {
+            tags.push("invalid-utf8".into());
+        }
+        if all.windows(2).any(|w| w == b"\r\n") {
+            tags.push("crlf".into());
+        }
+        let (first, stuck) = self.watched(&paths, strat, seed, cap, true);
+        self.hung |= stuck;
+        if is_hang(&first) {
+            return Some((first, tags));
+        }
+        let fl = first.as_l()?;
+        if fl.first() != Some(&Val::I(1)) {
+            return Some((first.clone(), tags));
+        }
+        let items = fl[1].as_l()?;
+        let errs = items.iter().filter(|it| it.nth(1).and_then(|x| x.nth(0)) == Some(&Val::I(0))).count();
+        if errs > 0 {
+            tags.push("err-items".into());
+        }
+        if errs < items.len() {
+            tags.push("ok-items".into());
+        }
+        if nl - files.len() >= 2 && (errs > 0 || open_end || all.iter().any(|c| *c >= 0x80 || *c == b'\\')) {
+            tags.push("nt".into());
+        }
+        let (second, stuck) = self.watched(&paths, strat, seed, cap, true);
+        self.hung |= stuck;
+        if is_hang(&second) {
+            return Some((second, tags));
+        }
+        let rep = second == first;
+        Some((Val::L(vec![Val::I(1), fl[1].clone(), Val::b(rep), fl[2].clone()]), tags))
     }
 
     fn tags(strat: i64, srcs: &Srcs) -> Vec<String> {
@@ -921,7 +1644,18 @@ fn case(strat: i64, seed: u64, lens: &[usize], rng: &mut Rng, malformed: bool) -
 
 impl Prop for C07 {
     fn gen(&mut self, rng: &mut Rng, tier: Tier, _i: usize, _n: usize) -> Val {
-        // rng scripts: 30 % of the quick tier, 70 % of the thorough tier
+        // the loader's input files (C07_Files.v): 45 % of the quick tier, 30 % of the thorough tier
+        let share = if tier == Tier::Thorough { 30 } else { 45 };
+        let k = rng.below(100);
+        if k < share {
+            return match k * 45 / share {
+                0..=21 => gen_file_case(rng),
+                22..=33 => gen_json_case(rng),
+                34..=41 => gen_lines_case(rng),
+                _ => gen_print_case(rng),
+            };
+        }
+        // rng scripts: 30 % of the remaining quick tier, 70 % of the remaining thorough tier
         if rng.chance(if tier == Tier::Thorough { 7 } else { 3 }, 10) {
             return gen_rng_case(rng);
         }
@@ -1002,12 +1736,32 @@ impl Prop for C07 {
                 }
             }
         }
+        // the line reader on every byte string of length <= 5 over {a, \n, \r, 0xC3, 0xA9, 0xF0}
+        let alpha = [b'a', b'\n', b'\r', 0xc3, 0xa9, 0xf0];
+        for len in 0..=5usize {
+            for code in 0..alpha.len().pow(len as u32) {
+                let mut c = code;
+                let b: Vec<u8> = (0..len)
+                    .map(|_| {
+                        let x = alpha[c % alpha.len()];
+                        c /= alpha.len();
+                        x
+                    })
+                    .collect();
+                all.push(lines_case(1 + code % 3, &b));
+            }
+        }
         all
     }
 
     fn run(&mut self, input: &Val) -> Option<(Val, Vec<String>)> {
-        if input.nth(0).and_then(|v| v.as_i()) == Some(3) {
-            return run_rng_case(input);
+        match input.nth(0).and_then(|v| v.as_i()) {
+            Some(3) => return run_rng_case(input),
+            Some(4..=6) => return self.run_file_case(input),
+            Some(7) => return run_json_case(input),
+            Some(8) => return run_print_case(input),
+            Some(9) => return run_lines_case(input),
+            _ => {}
         }
         let (strat, seed, srcs) = parse_input(input)?;
         if !(0..3).contains(&strat) || srcs.is_empty() || srcs.len() > 8 {
@@ -1034,7 +1788,7 @@ impl Prop for C07 {
         let total: usize = srcs.iter().map(|s| s.len()).sum();
         let cap = total + srcs.len() + 4;
         let tags = C07::tags(strat, &srcs);
-        let (first, stuck) = self.watched(&files, strat, seed, cap);
+        let (first, stuck) = self.watched(&files, strat, seed, cap, false);
         self.hung |= stuck;
         if is_hang(&first) {
             return Some((first, tags));
@@ -1043,7 +1797,7 @@ impl Prop for C07 {
         if l.first() != Some(&Val::I(1)) {
             return Some((first.clone(), tags));
         }
-        let (second, stuck) = self.watched(&files, strat, seed, cap);
+        let (second, stuck) = self.watched(&files, strat, seed, cap, false);
         self.hung |= stuck;
         if is_hang(&second) {
             return Some((second, tags));
@@ -1062,6 +1816,9 @@ impl Prop for C07 {
         }
         if l[0].as_i() == Some(3) {
             return canon_rng_case(input);
+        }
+        if let Some(k @ 4..=9) = l[0].as_i() {
+            return canon_file_level(k, l);
         }
         let strat = l[0].as_i()?.rem_euclid(3);
         let seed = l[1].as_i()?.unsigned_abs() & ((1 << 62) - 1);
@@ -1111,7 +1868,7 @@ impl Prop for C07 {
         if let Some(files) = self.write_files(&srcs) {
             let mut distinct = std::collections::HashSet::new();
             for seed in 0..16u64 {
-                distinct.insert(self.watched(&files, 2, seed, 40).0.to_sexp());
+                distinct.insert(self.watched(&files, 2, seed, 40, false).0.to_sexp());
             }
             if distinct.len() < 2 {
                 errs.push("weighted: 16 seeds gave one and the same stream".into());
